@@ -54,3 +54,19 @@ Definition c19_cache_stale (c : cache) (t : tree) (id : bytes) : bool :=
   | Some p => negb (cache_entry_ok t id p)
   | None => false
   end.
+
+(** id=glob-qmark-one-byte.  globset compiles the glob to a byte regex ((?-u)), so
+    an unescaped [?] stands for exactly one BYTE: it cannot match a non-ASCII
+    character of an id (the glob matcher is external to the model; this
+    classifier is evaluated by the check only). *)
+Fixpoint has_unescaped_qmark (g : bytes) : bool :=
+  match g with
+  | [] => false
+  | c :: g' =>
+      if code c =? 92 then match g' with [] => false | _ :: g'' => has_unescaped_qmark g'' end
+      else (code c =? 63) || has_unescaped_qmark g'
+  end.
+
+Definition c19_glob_qmark_multibyte (g : bytes) (ids : list bytes) : bool :=
+  has_unescaped_qmark g && existsb (existsb (fun c => 128 <=? code c)) ids.
+
